@@ -39,24 +39,31 @@ pub fn c17(stream: &[(Ev, Vec<Act>)], n_machines: usize) -> (Fired, Option<Viol>
 }
 /// As `c17`, plus for every event whether a BlockOutgoing action with bypass=true is pending (issued, not yet fired) when the event is reported.
 pub fn c17_ext(stream: &[(Ev, Vec<Act>)], n_machines: usize) -> (Fired, Option<Viol>, u64, Vec<bool>) {
+    let (a, b, c, d, _) = c17_full(stream, n_machines);
+    (a, b, c, d)
+}
+/// As `c17_ext`, plus for every event whether a zero-duration BlockOutgoing is pending and due at that very instant.
+pub fn c17_full(stream: &[(Ev, Vec<Act>)], n_machines: usize) -> (Fired, Option<Viol>, u64, Vec<bool>, Vec<bool>) {
     let mut pend: Vec<Option<Pend>> = vec![None; n_machines];
     let mut grace: Vec<Vec<Pend>> = vec![vec![]; n_machines];
     let mut fired: Fired = vec![None; stream.len()];
     let mut firings = 0u64;
     let mut last = 0u64;
     let mut pbb: Vec<bool> = vec![false; stream.len()];
+    let mut zdn: Vec<bool> = vec![false; stream.len()];
     // a zero-duration BlockOutgoing was issued on this side: its BlockingEnd is reported before its BlockingBegin
     // (known finding of C16), so a machine reacting to that BlockingEnd re-issues an action "before" the begin
     let mut zero_dur_block = false;
     for (i, (e, acts)) in stream.iter().enumerate() {
         let now = e.t;
         pbb[i] = pend.iter().flatten().any(|p| !p.pad && p.bypass && p.due > now);
+        zdn[i] = pend.iter().flatten().any(|p| !p.pad && p.dur == 0 && p.due == now);
         if now > last {
             for m in 0..n_machines {
                 grace[m].clear();
                 if let Some(p) = &pend[m] {
                     if p.due < now {
-                        return (fired, Some(Viol { sig: "C17:missed-firing".into(), msg: format!("machine {m}: action issued at {}ns due at {}ns ({}) was not superseded but had not fired when time moved on to {}ns", p.issued, p.due, if p.pad { "SendPadding" } else { "BlockOutgoing" }, now), at: i }), firings, pbb);
+                        return (fired, Some(Viol { sig: "C17:missed-firing".into(), msg: format!("machine {m}: action issued at {}ns due at {}ns ({}) was not superseded but had not fired when time moved on to {}ns", p.issued, p.due, if p.pad { "SendPadding" } else { "BlockOutgoing" }, now), at: i }), firings, pbb, zdn);
                     }
                 }
             }
@@ -67,7 +74,7 @@ pub fn c17_ext(stream: &[(Ev, Vec<Act>)], n_machines: usize) -> (Fired, Option<V
                 let m = machine.into_raw();
                 let pad = matches!(e.event, TriggerEvent::PaddingSent { .. });
                 if m >= n_machines {
-                    return (fired, Some(Viol { sig: "C17:unknown-machine".into(), msg: format!("{:?} names machine {m} which does not exist on this side", e.event), at: i }), firings, pbb);
+                    return (fired, Some(Viol { sig: "C17:unknown-machine".into(), msg: format!("{:?} names machine {m} which does not exist on this side", e.event), at: i }), firings, pbb, zdn);
                 }
                 let direct = matches!(&pend[m], Some(p) if p.pad == pad && p.due == now);
                 let p = if direct {
@@ -83,7 +90,7 @@ pub fn c17_ext(stream: &[(Ev, Vec<Act>)], n_machines: usize) -> (Fired, Option<V
                             Some(p) => format!("the most recent action for the machine is {} issued at {}ns due at {}ns", if p.pad { "SendPadding" } else { "BlockOutgoing" }, p.issued, p.due),
                             None => "no action is pending for the machine (never issued, already fired, cancelled or superseded)".to_string(),
                         };
-                        return (fired, Some(Viol { sig: format!("C17:spurious-{}{}", if pad { "PaddingSent" } else { "BlockingBegin" }, if zero_dur_block && !pad { "+zero-duration-block" } else { "" }), msg: format!("{} for machine {m} reported at {}ns, but {why}", if pad { "PaddingSent" } else { "BlockingBegin" }, now), at: i }), firings, pbb);
+                        return (fired, Some(Viol { sig: format!("C17:spurious-{}{}", if pad { "PaddingSent" } else { "BlockingBegin" }, if zero_dur_block && !pad { "+zero-duration-block" } else { "" }), msg: format!("{} for machine {m} reported at {}ns, but {why}", if pad { "PaddingSent" } else { "BlockingBegin" }, now), at: i }), firings, pbb, zdn);
                     }
                     Some(p) => {
                         firings += 1;
@@ -115,7 +122,7 @@ pub fn c17_ext(stream: &[(Ev, Vec<Act>)], n_machines: usize) -> (Fired, Option<V
             }
         }
     }
-    (fired, None, firings, pbb)
+    (fired, None, firings, pbb, zdn)
 }
 /// A newer action or a cancel supersedes the pending one, which then never fires: a firing *reported after*
 /// the superseding event (in trace order) is a violation, also when both carry the same time stamp. (The
@@ -232,7 +239,7 @@ pub struct C16Stats {
 }
 
 /// C16 — blocking honoured. `fired` comes from the C17 tracker (which action each firing belongs to).
-pub fn c16(stream: &[(Ev, Vec<Act>)], fired: &Fired, pending_bypass_block: &[bool]) -> (Option<Viol>, C16Stats) {
+pub fn c16(stream: &[(Ev, Vec<Act>)], fired: &Fired, pending_bypass_block: &[bool], zero_block_due_now: &[bool]) -> (Option<Viol>, C16Stats) {
     let mut st = C16Stats::default();
     let mut active = false;
     let mut until = 0u64;
@@ -284,12 +291,12 @@ pub fn c16(stream: &[(Ev, Vec<Act>)], fired: &Fired, pending_bypass_block: &[boo
                 if !active {
                     // a zero-duration block whose end is reported before its begin: look ahead at this instant
                     let z = stream[i + 1..].iter().take_while(|(x, _)| x.t == now).enumerate().any(|(k, (x, _))| matches!(x.event, TriggerEvent::BlockingBegin { .. }) && fired[i + 1 + k].as_ref().map(|p| p.dur == 0).unwrap_or(false));
-                    return (Some(Viol { sig: format!("C16:BlockingEnd-while-not-blocking{}", ztag(zero_dur_fired || z)), msg: format!("BlockingEnd reported at {now}ns although no blocking is active (no BlockingBegin since the last end)"), at: i }), st);
+                    return (Some(Viol { sig: format!("C16:BlockingEnd-while-not-blocking{}", ztag(zero_dur_fired || z || zero_block_due_now.get(i).copied().unwrap_or(false))), msg: format!("BlockingEnd reported at {now}ns although no blocking is active (no BlockingBegin since the last end)"), at: i }), st);
                 }
                 if now != until {
                     // a zero-duration replacing block fired at this instant whose BlockingBegin is still to be reported
                     let z = stream[i + 1..].iter().take_while(|(x, _)| x.t == now).enumerate().any(|(k, (x, _))| matches!(x.event, TriggerEvent::BlockingBegin { .. }) && fired[i + 1 + k].as_ref().map(|p| p.dur == 0).unwrap_or(false));
-                    return (Some(Viol { sig: format!("C16:BlockingEnd-at-wrong-time{}", ztag(zero_dur_fired || z)), msg: format!("BlockingEnd reported at {now}ns, but the blocking expires at {until}ns (duration of the starting action, replaced / extended per the contract)"), at: i }), st);
+                    return (Some(Viol { sig: format!("C16:BlockingEnd-at-wrong-time{}", ztag(zero_dur_fired || z || zero_block_due_now.get(i).copied().unwrap_or(false))), msg: format!("BlockingEnd reported at {now}ns, but the blocking expires at {until}ns (duration of the starting action, replaced / extended per the contract)"), at: i }), st);
                 }
                 active = false;
             }
